@@ -2,4 +2,4 @@ SPECIFICATION Spec
 CONSTANTS
   Alpha <- AllBytes
   N = 3
-INVARIANTS LawsHold EmitCompact
+INVARIANTS JudgeCompact
